@@ -277,6 +277,10 @@ def parse_place(s):
 	m = re.match(r"^_(\d+)$", s)
 	if m:
 		return Place(int(m.group(1)), [])
+	m = re.match(r"^(.*)\[_(\d+)\]$", s, re.S)
+	if m and (m.group(1).startswith("(") and match_close(m.group(1), 0) == len(m.group(1)) - 1 or re.match(r"^_\d+$", m.group(1))):
+		p = parse_place(m.group(1))
+		return Place(p.local, p.proj + [("index", int(m.group(2)))])
 	if s.startswith("(*") and match_close(s, 0) == len(s) - 1:
 		p = parse_place(s[2:-1])
 		return Place(p.local, p.proj + [("deref",)])
@@ -293,6 +297,12 @@ def parse_place(s):
 				raise MirError("place? " + s)
 			head, rest = m.group(1), m.group(2)
 		p = parse_place(head)
+		m = re.match(r"^\[_(\d+)\](.*)$", rest, re.S)
+		if m:
+			p = Place(p.local, p.proj + [("index", int(m.group(1)))])
+			rest = m.group(2)
+			if rest == "":
+				return p
 		m = re.match(r"^ as (\w+)$", rest)
 		if m:
 			return Place(p.local, p.proj + [("downcast", m.group(1))])
@@ -620,6 +630,11 @@ class Interp:
 				loc = (v[0], v[1], v[2])
 			elif p[0] == "field":
 				loc = (loc[0], loc[1], loc[2] + (p[1],))
+			elif p[0] == "index":
+				i = st.frames[fi].locals.get(p[1])
+				if not isinstance(i, int):
+					raise MirError("index by %r" % (i,))
+				loc = (loc[0], loc[1], loc[2] + (i,))
 			elif p[0] == "downcast":
 				v = self.read_loc(st, loc)
 				if isinstance(v, Agg) and v.variant != p[1]:
@@ -719,6 +734,12 @@ class Interp:
 		if m and m.group(1) in self.BINOPS:
 			a, b = [self.operand(st, fi, x) for x in split_top(m.group(2))]
 			return self.BINOPS[m.group(1)](a, b)
+		if m and m.group(1) == "PtrMetadata":
+			a = self.operand(st, fi, m.group(2))
+			hook = self.models.get("@len")
+			if hook is None:
+				raise MirError("PtrMetadata without a model")
+			return hook(self, st, a)
 		if m and m.group(1) == "Not":
 			a = self.operand(st, fi, m.group(2))
 			return (not a) if isinstance(a, bool) else a.negate()
@@ -783,7 +804,7 @@ class Interp:
 				where = "%s bb%d[%d]" % (fr.fn.header[:60], fr.bb, fr.ip) if fr else "?"
 				raise MirError("%s  (at %s)" % (e, where))
 			for n in succ:
-				if n.result is not None and not n.frames:
+				if n.result is not None:
 					self.stats["paths"] += 1
 					yield n
 				else:
@@ -823,10 +844,11 @@ class Interp:
 			v = fr.locals.get(0)
 			st.frames.pop()
 			if not st.frames or st.frames[-1].fn is None:
-				# back in the harness' root frame: the run is complete
+				# back at a sentinel frame (harness root, or a nested run started by a model): complete
 				st.result = v if v is not None else UNIT
 				st.aux["root"] = dict(st.frames[-1].locals) if st.frames else {}
-				st.frames = []
+				if st.frames:
+					st.frames.pop()
 				return [st]
 			caller = st.frames[-1]
 			self.write_loc(st, self.resolve(st, len(st.frames) - 1, fr.dest), v)
@@ -853,6 +875,11 @@ class Interp:
 			return None
 		m = re.match(r"^assert\((.*)\) -> \[success: bb(\d+).*\]$", s)
 		if m:
+			first = split_top(m.group(1))[0]
+			neg = first.startswith("!")
+			c = self.operand(st, fi, first[1:] if neg else first)
+			if isinstance(c, bool) and (c == neg):
+				raise MirError("PANIC assertion failed: " + m.group(1)[:80])
 			self.goto(fr, int(m.group(2)))
 			return None
 		# call:  DEST = CALLEE(ARGS) -> [return: bbN, unwind ...]
@@ -958,6 +985,19 @@ class Interp:
 		if len(res) == 1 and res[0] is st:
 			return None
 		return res
+
+	def run_sub(self, st, fn, args):
+		"""runs a MIR function to completion from inside a model: [(state, result)] (the frames of
+		`st` below the call stay in place, so references into them remain valid)"""
+		st.frames.append(Frame(None, {}))
+		st.frames.append(Frame(fn, {p: a for p, a in zip(fn.params, args)}, 0, 0, Place(0, []), 0))
+		out = []
+		for fin in self.run(st):
+			res = fin.result
+			fin.result = None
+			fin.aux.pop("root", None)
+			out.append((fin, res))
+		return out
 
 	def fn_value_call(self, f, args):
 		"""a CallFn for a closure / function-item value if its MIR is available, else None"""
